@@ -16,6 +16,8 @@
 #define LIMIT_MIN 256
 #define LIMIT_DEFAULT (8u << 20)
 static size_t alloc_limit = LIMIT_DEFAULT;
+static int oom_seen; /* did the allocator refuse a request during the current op? */
+#define EOL() printf(" oom=%d\n", oom_seen)
 void *__real_malloc(size_t n);
 void *__real_calloc(size_t n, size_t m);
 void *__real_realloc(void *p, size_t n);
@@ -23,6 +25,7 @@ void *__wrap_malloc(size_t n)
 {
 	if (n > alloc_limit)
 	{
+		oom_seen = 1;
 		errno = ENOMEM;
 		return NULL;
 	}
@@ -32,6 +35,7 @@ void *__wrap_calloc(size_t n, size_t m)
 {
 	if (m && n > alloc_limit / m)
 	{
+		oom_seen = 1;
 		errno = ENOMEM;
 		return NULL;
 	}
@@ -41,6 +45,7 @@ void *__wrap_realloc(void *p, size_t n)
 {
 	if (n > alloc_limit)
 	{
+		oom_seen = 1;
 		errno = ENOMEM;
 		return NULL;
 	}
@@ -232,6 +237,7 @@ int main(void)
 		}
 		const char *op = W[0];
 		nrel = 0;
+		oom_seen = 0;
 		if (!strcmp(op, "limit") && NW == 2)
 		{
 			alloc_limit = (size_t)U(1);
@@ -246,9 +252,10 @@ int main(void)
 			nrel = 0;
 			al = array_list_new2(log_free, atoi(W[1]));
 			if (al)
-				printf("new ok ## %llu\n", (unsigned long long)al->size);
+				printf("new ok ## %llu", (unsigned long long)al->size);
 			else
-				puts("new null ## -");
+				printf("new null ## -");
+			EOL();
 		}
 		else if (!strcmp(op, "jnew") && NW == 2)
 		{
@@ -259,9 +266,10 @@ int main(void)
 				if (H[k])
 					held[k] = (long)H[k]->_ref_count - 1;
 			if (ja)
-				printf("new ok ## %llu\n", (unsigned long long)json_object_get_array(ja)->size);
+				printf("new ok ## %llu", (unsigned long long)json_object_get_array(ja)->size);
 			else
-				puts("new null ## -");
+				printf("new null ## -");
+			EOL();
 		}
 		else if (op[0] != 'j')
 		{
@@ -275,50 +283,50 @@ int main(void)
 			{
 				printf("r=%d", array_list_add(al, (void *)(uintptr_t)U(1)));
 				show_al();
-				putchar('\n');
+				EOL();
 			}
 			else if (!strcmp(op, "put") && NW == 3)
 			{
 				printf("r=%d", array_list_put_idx(al, (size_t)U(1), (void *)(uintptr_t)U(2)));
 				show_al();
-				putchar('\n');
+				EOL();
 			}
 			else if (!strcmp(op, "ins") && NW == 3)
 			{
 				printf("r=%d", array_list_insert_idx(al, (size_t)U(1), (void *)(uintptr_t)U(2)));
 				show_al();
-				putchar('\n');
+				EOL();
 			}
 			else if (!strcmp(op, "del") && NW == 3)
 			{
 				printf("r=%d", array_list_del_idx(al, (size_t)U(1), (size_t)U(2)));
 				show_al();
-				putchar('\n');
+				EOL();
 			}
 			else if (!strcmp(op, "shrink") && NW == 2)
 			{
 				printf("r=%d", array_list_shrink(al, (size_t)U(1)));
 				show_al();
-				putchar('\n');
+				EOL();
 			}
 			else if (!strcmp(op, "get") && NW == 2)
 			{
 				printf("v=%llu", (unsigned long long)(uintptr_t)array_list_get_idx(al, (size_t)U(1)));
 				show_al();
-				putchar('\n');
+				EOL();
 			}
 			else if (!strcmp(op, "len") && NW == 1)
 			{
 				printf("n=%llu", (unsigned long long)array_list_length(al));
 				show_al();
-				putchar('\n');
+				EOL();
 			}
 			else if (!strcmp(op, "sort") && NW == 1)
 			{
 				array_list_sort(al, cmp_ptr);
 				printf("r=0");
 				show_al();
-				putchar('\n');
+				EOL();
 			}
 			else if (!strcmp(op, "bs") && NW == 2)
 			{
@@ -330,9 +338,10 @@ int main(void)
 					printf("f=-");
 				show_al();
 				if (r)
-					printf(" pos=%llu\n", (unsigned long long)(r - al->array));
+					printf(" pos=%llu", (unsigned long long)(r - al->array));
 				else
-					printf(" pos=-\n");
+					printf(" pos=-");
+				EOL();
 			}
 			else if (!strcmp(op, "free") && NW == 1)
 			{
@@ -340,7 +349,8 @@ int main(void)
 				al = NULL;
 				printf("freed");
 				print_rel();
-				printf(" ## -\n");
+				printf(" ## -");
+				EOL();
 			}
 			else
 				puts("bad-op");
@@ -375,38 +385,38 @@ int main(void)
 					json_object_put(o); /* refused: the caller still owns it */
 				printf("r=%d", r);
 				show_ja(v, r == 0);
-				putchar('\n');
+				EOL();
 			}
 			else if (!strcmp(op, "jdel") && NW == 3)
 			{
 				printf("r=%d", json_object_array_del_idx(ja, (size_t)U(1), (size_t)U(2)));
 				show_ja(0, 0);
-				putchar('\n');
+				EOL();
 			}
 			else if (!strcmp(op, "jshrink") && NW == 2)
 			{
 				printf("r=%d", json_object_array_shrink(ja, atoi(W[1])));
 				show_ja(0, 0);
-				putchar('\n');
+				EOL();
 			}
 			else if (!strcmp(op, "jget") && NW == 2)
 			{
 				put_id(json_object_array_get_idx(ja, (size_t)U(1)), "v=");
 				show_ja(0, 0);
-				putchar('\n');
+				EOL();
 			}
 			else if (!strcmp(op, "jlen") && NW == 1)
 			{
 				printf("n=%llu", (unsigned long long)json_object_array_length(ja));
 				show_ja(0, 0);
-				putchar('\n');
+				EOL();
 			}
 			else if (!strcmp(op, "jsort") && NW == 1)
 			{
 				json_object_array_sort(ja, cmp_jso);
 				printf("r=0");
 				show_ja(0, 0);
-				putchar('\n');
+				EOL();
 			}
 			else if (!strcmp(op, "jbs") && NW == 2)
 			{
@@ -423,7 +433,7 @@ int main(void)
 				else
 					printf("f=-");
 				show_ja(0, 0);
-				putchar('\n');
+				EOL();
 			}
 			else if (!strcmp(op, "jfree") && NW == 1)
 			{
@@ -431,7 +441,8 @@ int main(void)
 				ja = NULL;
 				printf("freed");
 				print_jrel(0, 0);
-				printf(" ## -\n");
+				printf(" ## -");
+				EOL();
 			}
 			else
 				puts("bad-op");
